@@ -147,6 +147,7 @@ func init() {
 			{Name: "motifs", TShards: 4, Run: c17Motifs},
 			{Name: "fromjaccard", Run: c17FromJaccard},
 			{Name: "variants", TShards: 4, Run: c17Variants},
+			{Name: "srcviews", Run: srcViewUnit(viewCallsC17)},
 		},
 	})
 }
